@@ -51,6 +51,18 @@ CLAIMED = {
               "relationally against the exact matrix (= what a fresh copy satisfies), and after every step validates every _memoize_cache entry of "
               "every live object against the matrix of the object holding it."),
         design="5/C12", note="TLC 1.8; relation checks in float64 against exact integer matrices; Lanczos-valued answers under max_cholesky_size(0) are executed but judged by C05/C06"),
+    "C13": dict(
+        engine="E3-history-machines",
+        technique="TLA+ alias/ownership model of the solvers' buffer handling checked by TLC for every argument layout; TLC-enumerated call cases executed with a version+bits monitor on every caller tensor",
+        text=("spec/LOFrame.tla: cells with ownership; tensor primitives with layout-dependent aliasing (view ops alias, .contiguous() aliases "
+              "iff already contiguous, clone / out-of-place ops are fresh, trailing-underscore ops write). The buffer handling of linear_cg, "
+              "psd_safe_cholesky, pivoted Cholesky and Lanczos is transcribed as straight-line programs; TLC runs them for every layout of every "
+              "caller argument and checks NoCallerWrite; four variants without a defensive copy are rejected. spec/MC_C13.tla enumerates "
+              "operation x argument role x layout {contiguous, expanded stride-0, transposed view, slice of a larger storage} x 21 operator "
+              "classes (incl. identity-diagonal composites whose products alias their argument) x batch x {direct, CG path} and 18 utility "
+              "kernels; each case is executed and every caller cell (argument base storages, every tensor defining the operator) is compared "
+              "by _version and bits; the operator must still densify to the same matrix."),
+        design="5/C13", note="TLC 1.8; torch's _version counter; harness/checks/c13.py argument builders"),
     "C16": dict(
         engine="E3-history-machines",
         technique="TLA+ retry-loop state machine (ideal per-member minimal jitter vs implementation-shaped loop) model checked by TLC; terminal behaviours replayed, cholesky_ex attempts trace-validated",
